@@ -83,7 +83,8 @@ struct Digit {
 
             if (!IsUnsigned<Number_T>()) {
                 if (number < 0) {
-                    qn.Integer = -qn.Integer;
+                    // Negate as unsigned: -(minimum value) overflows the signed type.
+                    qn.Natural = (~qn.Natural + 1U);
                     stream += DigitUtils::DigitChar::Negative;
                 }
             }
